@@ -222,42 +222,9 @@ def run_c02(ck, fb, fbd):
             raise AnalysisBroken("C02: expected exactly one function erasing the %s definition, found %s" % (kind, [x.name for x in cand]))
         cores[kind] = cand[0]
     ck.analysed["delete_cores"] = {k: f.name for k, f in cores.items()}
-    # collect_garbage
-    ck.rule("L.gc", "collect_garbage: per kind, in descending dimension, a descending index loop clears K_deleted_[h] immediately before delete_K_core(h) and zeroes n_deleted_K_ after the loop; clear() zeroes all four counters")
-    gc = [f for f in c.fns if sum(1 for e in c.eff.get(f.id, []) if e["cls"] == "flag=false") >= 4]
-    if len(gc) != 1:
-        raise AnalysisBroken("C02: collect_garbage not identified (functions resetting all four deleted flags: %s)" % [x.name for x in gc])
-    gc = gc[0]
+    gc_rules(c, cores)
+    gc = find_gc(c)
     core_ids = {f.id: k for k, f in cores.items()}
-    calls = [(b, i, n) for b, i, n in gc.nodes(("call",)) if n.get("u") in core_ids]
-    for kind in KINDS:
-        rs = [e for e in c.eff[gc.id] if e["cls"] == "flag=false" and e["kind"] == kind]
-        cs = [(b, i, n) for b, i, n in calls if core_ids[n["u"]] == kind]
-        ok = bool(rs) and bool(cs) and all(any(r["pos"][0] == b and r["pos"][1] < i and index_root(r["args"][0]) == index_root(gc.resolve(n["a"][0])) for r in rs) for b, i, n in cs)
-        (ck.ok if ok else lambda r, w, t: ck.violate(r, w, t, "L.gc:reset:%s" % kind))("L.gc", gc.where, "collect_garbage clears %s[h] right before %s(h)" % (km.flags[kind], cores[kind].name))
-        z = [e for e in c.eff[gc.id] if e["cls"] == "delcount=0" and e["kind"] == kind]
-        ok = bool(z) and all(any(gc.dominates((b, i), e["pos"]) or loop_exit_reaches(gc, b, e["pos"][0]) for e in z) for b, i, n in cs)
-        (ck.ok if ok else lambda r, w, t: ck.violate(r, w, t, "L.gc:zero:%s" % kind))("L.gc", gc.where, "collect_garbage zeroes %s after its loop" % km.delcount[kind])
-    # order of kinds in collect_garbage: no path from a lower-dimensional core call to a higher one
-    for (b1, i1, n1) in calls:
-        for (b2, i2, n2) in calls:
-            k1, k2 = core_ids[n1["u"]], core_ids[n2["u"]]
-            if DIM[k1] < DIM[k2]:
-                bad = b2 in gc.reachable_from(b1)
-                (ck.ok if not bad else lambda r, w, t: ck.violate(r, w, t, "L.gc:order:%s:%s" % (k1, k2)))("L.gc", gc.where, "collect_garbage: %s never runs before %s" % (cores[k1].name, cores[k2].name))
-    # descending index loops
-    for hdr, body, backs in gc.loops():
-        t = gc.term(hdr)
-        cond = estr(gc.resolve(t.get("cond"))) if t and t.get("cond") else ""
-        if not any(b in body for b, i, n in calls):
-            continue
-        step = [estr(n) for b, i, n in gc.tops() if b in body and n.get("k") == "un"]
-        ok = "> 0" in cond and any(s.startswith("--") or s.endswith("--") for s in step)
-        (ck.ok if ok else lambda r, w, t: ck.violate(r, w, t, "L.gc:descending"))("L.gc", gc.loc(t), "collect_garbage loop '%s' runs from the last index down to 1 (i > 0; --i)" % cond)
-    clr = c.fn("clear")[0]
-    for kind in KINDS:
-        z = [e for e in c.eff.get(clr.id, []) if e["cls"] == "delcount=0" and e["kind"] == kind and not e["atoms"]]
-        (ck.ok if z else lambda r, w, t: ck.violate(r, w, t, "L.gc:clear:%s" % kind))("L.gc", clr.where, "clear() zeroes %s unconditionally" % km.delcount[kind])
 
     # closure order + reverse iteration
     ck.rule("C02.closure", "delete_vertex/edge/face gather the incident entities of every higher kind and call the delete_*_core functions in strictly descending dimension; every loop feeding delete_K_core iterates a std::set in reverse (descending handles)")
@@ -349,6 +316,61 @@ def run_c02(ck, fb, fbd):
     (ck.ok if ok else lambda r, w, t: ck.violate(r, w, t, "C02.logical:genus"))("C02.logical", g.where, "genus() is computed from %s" % names)
 
     corrections(c, cores)
+
+
+def find_gc(c):
+    gc = [f for f in c.fns if sum(1 for e in c.eff.get(f.id, []) if e["cls"] == "flag=false") >= 4]
+    if len(gc) != 1:
+        raise AnalysisBroken("collect_garbage not identified (functions resetting all four deleted flags: %s)" % [x.name for x in gc])
+    return gc[0]
+
+
+def delete_cores(c):
+    cores = {}
+    for kind in KINDS:
+        cand = [f for f in c.fns if any(e["cls"] == "erase" and e["kind"] == kind and e["role"] == "def" for e in c.eff.get(f.id, []))]
+        if len(cand) != 1:
+            raise AnalysisBroken("expected exactly one function erasing the %s definition, found %s" % (kind, [x.name for x in cand]))
+        cores[kind] = cand[0]
+    return cores
+
+
+def gc_rules(c, cores):
+    ck, km = c.ck, c.km
+    # collect_garbage
+    ck.rule("L.gc", "collect_garbage: per kind, in descending dimension, a descending index loop clears K_deleted_[h] immediately before delete_K_core(h) and zeroes n_deleted_K_ after the loop; clear() zeroes all four counters")
+    gc = find_gc(c)
+    core_ids = {f.id: k for k, f in cores.items()}
+    calls = [(b, i, n) for b, i, n in gc.nodes(("call",)) if n.get("u") in core_ids]
+    for kind in KINDS:
+        rs = [e for e in c.eff[gc.id] if e["cls"] == "flag=false" and e["kind"] == kind]
+        cs = [(b, i, n) for b, i, n in calls if core_ids[n["u"]] == kind]
+        ok = bool(rs) and bool(cs) and all(any(r["pos"][0] == b and r["pos"][1] < i and index_root(r["args"][0]) == index_root(gc.resolve(n["a"][0])) for r in rs) for b, i, n in cs)
+        (ck.ok if ok else lambda r, w, t: ck.violate(r, w, t, "L.gc:reset:%s" % kind))("L.gc", gc.where, "collect_garbage clears %s[h] right before %s(h)" % (km.flags[kind], cores[kind].name))
+        z = [e for e in c.eff[gc.id] if e["cls"] == "delcount=0" and e["kind"] == kind]
+        ok = bool(z) and all(any(gc.dominates((b, i), e["pos"]) or loop_exit_reaches(gc, b, e["pos"][0]) for e in z) for b, i, n in cs)
+        (ck.ok if ok else lambda r, w, t: ck.violate(r, w, t, "L.gc:zero:%s" % kind))("L.gc", gc.where, "collect_garbage zeroes %s after its loop" % km.delcount[kind])
+    # order of kinds in collect_garbage: no path from a lower-dimensional core call to a higher one
+    for (b1, i1, n1) in calls:
+        for (b2, i2, n2) in calls:
+            k1, k2 = core_ids[n1["u"]], core_ids[n2["u"]]
+            if DIM[k1] < DIM[k2]:
+                bad = b2 in gc.reachable_from(b1)
+                (ck.ok if not bad else lambda r, w, t: ck.violate(r, w, t, "L.gc:order:%s:%s" % (k1, k2)))("L.gc", gc.where, "collect_garbage: %s never runs before %s" % (cores[k1].name, cores[k2].name))
+    # descending index loops
+    for hdr, body, backs in gc.loops():
+        t = gc.term(hdr)
+        cond = estr(gc.resolve(t.get("cond"))) if t and t.get("cond") else ""
+        if not any(b in body for b, i, n in calls):
+            continue
+        step = [estr(n) for b, i, n in gc.tops() if b in body and n.get("k") == "un"]
+        ok = "> 0" in cond and any(s.startswith("--") or s.endswith("--") for s in step)
+        (ck.ok if ok else lambda r, w, t: ck.violate(r, w, t, "L.gc:descending"))("L.gc", gc.loc(t), "collect_garbage loop '%s' runs from the last index down to 1 (i > 0; --i)" % cond)
+    clr = c.fn("clear")[0]
+    for kind in KINDS:
+        z = [e for e in c.eff.get(clr.id, []) if e["cls"] == "delcount=0" and e["kind"] == kind and not e["atoms"]]
+        (ck.ok if z else lambda r, w, t: ck.violate(r, w, t, "L.gc:clear:%s" % kind))("L.gc", clr.where, "clear() zeroes %s unconditionally" % km.delcount[kind])
+
 
 
 def loop_exit_reaches(f, b_in_loop, target_block):
@@ -535,6 +557,28 @@ def run_c01(ck, fb, fbd):
         need = 2 if kind in ("Edge", "Face") else 1
         ok = len(good) >= need
         (ck.ok if ok else lambda r, w, t: ck.violate(r, w, t, "C01.unlink:%s" % f.pq))("C01.unlink", f.where, "%s unlinks the victim from %s in every deletion mode (%d mode-independent site(s), need %d)" % (f.name, cache, len(good), need))
+    owner_rule(c, cores, elem)
+    compute_rule(c)
+    # set_edge / set_face / set_cell
+    ck.rule("C01.set", "set_edge/set_face/set_cell unlink the old definition from the cache and link the new one under the cache's guard, and write the definition afterwards on every path")
+    for name, cache in (("set_edge", km_cache(c, "Vertex")), ("set_face", km_cache(c, "Edge")), ("set_cell", km_cache(c, "Face"))):
+        f = c.fn(name)[0]
+        es = elem.get(f.id, [])
+        un = [e for e in es if e["cache"] == cache and e["what"] in ("unlink", "assign")]
+        ln = [e for e in es if e["cache"] == cache and e["what"] in ("push", "assign")]
+        h = c.has_name(cache)
+        ok = bool(un) and bool(ln) and all((h, True) in e["atoms"] for e in un + ln)
+        (ck.ok if ok else lambda r, w, t: ck.violate(r, w, t, "C01.set:%s" % f.pq))("C01.set", f.where, "%s unlinks (%d) and links (%d) on %s under %s" % (name, len(un), len(ln), cache, h))
+        setters = [(b, i) for b, i, n in f.nodes(("call",)) if n.get("pn", "").split("::")[-1] in ("set_from_vertex", "set_to_vertex", "set_halfedges", "set_halffaces")]
+        pd = f.postdominators()
+        ok = bool(setters) and all(b in pd.get(f.entry, ()) for b, i in setters) and all(not f.dominates(s, e["pos"]) for s in setters for e in un + ln)
+        (ck.ok if ok else lambda r, w, t: ck.violate(r, w, t, "C01.set:%s:def" % f.pq))("C01.set", f.where, "%s writes the definition on every path, after the cache update" % name)
+    ck.analysed["cache_element_sites"] = sum(len(v) for v in elem.values())
+    ck.floor("cache_element_sites", ck.analysed["cache_element_sites"], 24)
+
+
+def owner_rule(c, cores, elem):
+    ck, fb, km, cm = c.ck, c.fb, c.km, c.cm
     # ownership-guarded reset / relabel of the cell cache
     ck.rule("C01.owner", "delete_cell_core and swap_cell_indices overwrite incident_cell_per_hf_[x] only after testing that the entry still names the cell being deleted / swapped (a deferred-deleted cell may already have been replaced on the same halffaces)")
     fc = km_cache(c, "Face")
@@ -551,6 +595,10 @@ def run_c01(ck, fb, fbd):
                     if fc in s and index_root_of_elem(cc, fc) == e["index"]:
                         ok = True
             (ck.ok if ok else lambda r, w, t: ck.violate(r, w, t, "C01.owner:%s" % f.pq))("C01.owner", f.loc(e["node"]), "%s: write to %s[%s] is guarded by an equality test of that very entry" % (f.name, fc, e["index"]))
+
+
+def compute_rule(c):
+    ck, fb, km, cm = c.ck, c.fb, c.km, c.cm
     # compute functions
     ck.rule("C01.compute", "compute_*_bottom_up_incidences start with clear+resize of their cache and run only over the deleted-skipping ranges (vertices()/edges()/faces()/cells() and circulator ranges): every loop is a range-for over a range returned by a TopologyKernel accessor, never an index loop")
     for cache, k in cm.kinds.items():
@@ -573,22 +621,6 @@ def run_c01(ck, fb, fbd):
                     ok = True
             (ck.ok if ok else lambda r_, w, t_: ck.violate(r_, w, t_, "C01.compute:%s:loop" % f.pq))("C01.compute", f.loc(t) if t else f.where, "%s: %s is a deleted-skipping range of the kernel" % (f.name, desc))
         ck.count("compute_loops", nloops)
-    # set_edge / set_face / set_cell
-    ck.rule("C01.set", "set_edge/set_face/set_cell unlink the old definition from the cache and link the new one under the cache's guard, and write the definition afterwards on every path")
-    for name, cache in (("set_edge", km_cache(c, "Vertex")), ("set_face", km_cache(c, "Edge")), ("set_cell", km_cache(c, "Face"))):
-        f = c.fn(name)[0]
-        es = elem.get(f.id, [])
-        un = [e for e in es if e["cache"] == cache and e["what"] in ("unlink", "assign")]
-        ln = [e for e in es if e["cache"] == cache and e["what"] in ("push", "assign")]
-        h = c.has_name(cache)
-        ok = bool(un) and bool(ln) and all((h, True) in e["atoms"] for e in un + ln)
-        (ck.ok if ok else lambda r, w, t: ck.violate(r, w, t, "C01.set:%s" % f.pq))("C01.set", f.where, "%s unlinks (%d) and links (%d) on %s under %s" % (name, len(un), len(ln), cache, h))
-        setters = [(b, i) for b, i, n in f.nodes(("call",)) if n.get("pn", "").split("::")[-1] in ("set_from_vertex", "set_to_vertex", "set_halfedges", "set_halffaces")]
-        pd = f.postdominators()
-        ok = bool(setters) and all(b in pd.get(f.entry, ()) for b, i in setters) and all(not f.dominates(s, e["pos"]) for s in setters for e in un + ln)
-        (ck.ok if ok else lambda r, w, t: ck.violate(r, w, t, "C01.set:%s:def" % f.pq))("C01.set", f.where, "%s writes the definition on every path, after the cache update" % name)
-    ck.analysed["cache_element_sites"] = sum(len(v) for v in elem.values())
-    ck.floor("cache_element_sites", ck.analysed["cache_element_sites"], 24)
 
 
 def km_cache(c, kind):
